@@ -196,6 +196,8 @@ Mul(f, x, y) ==
     IF IsInf(x) THEN (IF IsZero(y) THEN NaN(0) ELSE Inf(s))
     ELSE IF IsInf(y) THEN (IF IsZero(x) THEN NaN(0) ELSE Inf(s))
     ELSE IF IsZero(x) \/ IsZero(y) THEN Zero(s)
+    ELSE IF Top(x) + Top(y) > f.emax THEN Inf(s)                  \* |x y| >= 2^(emax+1): overflows whatever the mantissas
+    ELSE IF Top(x) + Top(y) + 2 <= f.emin - 1 THEN Zero(s)        \* |x y| < 2^(emin-1): below half the smallest subnormal
     ELSE IF BitLen(x.m) + BitLen(y.m) > 30 THEN Oom
     ELSE RoundToFormat(f, s, x.m * y.m, x.e + y.e, 0)
 
